@@ -64,6 +64,12 @@ def cells(tier, seed):
         out.append({'id': f"history/relotted-stock/{cu.replace('/', '_')}/{qu}", 'fn': 'h_from', 'round': 'lite',
                     'max_paths': 400, 'cost': 6, 'params': {'comps': ['NaCl', 'water', 'lipase'], 'solute': 'NaCl',
                                                             'solvent': 'water', 'cu': cu, 'qu': qu, 'relot': True}})
+    # asking for exactly the concentration the stock already has: an aliquot of the stock and no solvent (in the real-number
+    # model the solvent amount is the zero polynomial; in floats it is rounding noise of either sign)
+    for k, (lo, hi) in enumerate([(1000, 2000), (3000, 7000), (10**4, 3 * 10**4), (5 * 10**4, 10**5), (2 * 10**5, 10**6),
+                                  (1234, 5678), (40000, 90000), (7 * 10**5, 10**6)]):
+        out.append({'id': f"own-concentration/{k}", 'fn': 'h_own', 'round': 'lite', 'max_paths': 50,
+                    'params': {'lo': lo, 'hi': hi, 'solvent': 'water' if k % 2 == 0 else 'DMSO'}})
     out.append({'id': "guards", 'fn': 'h_guards', 'round': 'lite', 'max_paths': 50, 'params': {}})
     return out
 
@@ -172,6 +178,34 @@ def h_from(h):
             for j in range(i + 1, len(compsB)):
                 si, sj = compsB[i], compsB[j]
                 h.require('solvent-aliquot-uniform', h.eq(takenB[si] * B[sj], takenB[sj] * B[si], h.rs(2 * ulp * (B[si] + B[sj]))))
+
+
+def h_own(h):
+    p = h.p
+    C = h.env.Container
+    lib = Lib(h, ['NaCl', 'water', 'DMSO'])
+    salt, solvent = lib['NaCl'], lib[p['solvent']]
+    stock = mk_container(h, lib, 'stock', ['NaCl', 'water'], lo=p['lo'], hi=p['hi'])
+    A = dict(stock.contents)
+    ct = lib.amount(salt, A[salt], 'mol') / lib.total(A, 'L')            # the stock's own molarity
+    vol_mL = lib.total(A, 'L') * 1000
+    f = h.real('f', Fr(1, 100), Fr(9, 10))                                # share of the stock asked for
+    Q = vol_mL * f
+    h.outcome = 'ok'
+    try:
+        rest, new = C.create_solution_from(stock, salt, f"{ct} M", solvent, f"{Q} mL", name='new')
+    except ValueError as e:
+        h.fail('own-concentration-accepted', f"a solution at the stock's own concentration ({ct} M, {Q} mL of it) was refused: {e}")
+        return
+    h.require('own-concentration-accepted', h.true(True))
+    tot = lib.total(new.contents, 'L') * 1000
+    h.require('total==requested', h.eq(tot, Q, h.rs(Fr(1, 10**6) * (1 + tot))), region='mL')
+    num = lib.amount(salt, new.contents.get(salt, 0), 'mol')
+    den = lib.total(new.contents, 'L')
+    h.require('concentration==requested', h.eq(num, ct * den, h.rs(Fr(1, 10**6) * (num + ct * den))), region='M')
+    for s_ in A:
+        h.require('conserved', h.eq(rest.contents.get(s_, 0) + new.contents.get(s_, 0), A[s_], h.rs(6 * h.ulp)),
+                  detail=f"{s_.name}: residual + new solution = stock")
 
 
 def h_guards(h):
